@@ -172,4 +172,13 @@ def codeItem (h : Hdr) (units : Nat) (insns : List Nat) (p : Plan) : List Nat :=
 def codeItemNoTries (h : Hdr) (units : Nat) (insns : List Nat) : List Nat :=
   le16 h.registers ++ le16 h.ins ++ le16 h.outs ++ le16 0 ++ le32 h.debugOff ++ le32 units ++ insns
 
+/-- a try list every number of which fits its field: 32-bit addresses and type indices, 16-bit
+    counts, fewer than 64 typed handlers per try (so that `size` fits one sleb128 byte in the
+    canonical encoding used for the existence theorem), and no try without any handler -/
+def WFTries (ts : List TrySpec) : Prop :=
+  ts ≠ [] ∧ ts.length < 2 ^ 16 ∧
+    ∀ t ∈ ts, t.start < 2 ^ 32 ∧ t.count < 2 ^ 16 ∧ t.typed.length < 64 ∧
+      (∀ p ∈ t.typed, p.1 < 2 ^ 32 ∧ p.2 < 2 ^ 32) ∧ (∀ a, t.catchAll = some a → a < 2 ^ 32) ∧
+      (t.catchAll = none → t.typed ≠ [])
+
 end AgVerif.Spec.Tries
